@@ -225,6 +225,8 @@ class Frame:
 class Run:
     """One simulated execution of a spec."""
 
+    _tokens = 0
+
     def __init__(self, spec: dict, watchdog_s: float = WATCHDOG_S):
         from furax import Config
 
@@ -256,6 +258,10 @@ class Run:
         self.table: dict[str, list] = {}
         self.shared_options: dict | None = None
         self.shared_callbacks: dict = {}
+        self.cells: dict = {}
+        Run._tokens += 1
+        self.token = Run._tokens
+        _RUNS[self.token] = self
         self.async_at = set(spec.get('async_at') or []) if self.fine else set()
         self.async_pending = False
         self.line_events = 0
@@ -477,31 +483,41 @@ class Run:
 
     def make_callback(self, tag: str, raising: bool):
         """A tagged callback; the flavour (closure, functools.partial, callable instance, bound
-        method) rotates with the tag so that nothing depends on callbacks being plain functions."""
+        method) rotates with the tag so that nothing depends on callbacks being plain functions.
+
+        A callback holds nothing but plain data (a token naming this run, its tag, and a private
+        mutable *cell*), so it survives copy.deepcopy -- but a copy carries a copy of the cell, and the
+        harness only counts a firing whose cell is the one it handed out: "the configured callback" means
+        that very object, not a clone of it.
+        """
         import functools
 
-        run = self
+        token = self.token
+        cell = [tag]
+        self.cells[tag] = cell
         digits = ''.join(ch for ch in tag if ch.isdigit())
         flavour = int(digits) % 4 if digits else 0
         if flavour == 1:
-            cb = functools.partial(_partial_callback, run, tag, raising)
+            cb = functools.partial(_fire, token, tag, raising, cell)
             cb.tag = tag  # type: ignore[attr-defined]
             return cb
         if flavour == 2:
-            return _CallbackObject(run, tag, raising)
+            return _CallbackObject(token, tag, raising, cell)
         if flavour == 3:
-            return _CallbackObject(run, tag, raising).method
+            return _CallbackObject(token, tag, raising, cell).method
 
         def callback(solution):
-            run.on_callback(tag, solution, raising)
+            _fire(token, tag, raising, cell, solution)
 
         callback.tag = tag  # type: ignore[attr-defined]
         callback.__name__ = f'cb_{tag}'
         callback.__qualname__ = f'cb_{tag}'
         return callback
 
-    def on_callback(self, tag: str, solution, raising: bool) -> None:
+    def on_callback(self, tag: str, solution, raising: bool, cell: list | None = None) -> None:
         sink = getattr(tls, 'sink', None)
+        if cell is not self.cells.get(tag):
+            tag = tag + '~clone'  # a copy of the configured callback fired, not the callback itself
         try:
             rec = (tag, int(solution.stats['num_steps']), int(solution.stats['max_steps']))
         except Exception as exc:  # pragma: no cover - defensive
@@ -723,6 +739,16 @@ class Run:
         own = set(fr.actor.own_handles)
         return [h for h in self.handles if h.h in own]
 
+    def pick(self, fr: Frame, vis: list, k: int) -> 'Handle':
+        """k >= 0: the k-th visible handle (mod count); k < 0: the |k|-th most recent handle this actor
+        created or derived itself (so that a program can refer to "the inverse I have just made")."""
+        if k < 0:
+            own = fr.actor.own_handles
+            if len(own) >= -k:
+                return self.handles[own[k]]
+            k = -k
+        return vis[k % len(vis)]
+
     def do_create(self, fr: Frame, stmt: list) -> None:
         from furax._base.blocks import BlockDiagonalOperator
 
@@ -809,7 +835,7 @@ class Run:
         if not vis:
             self.log(fr, 'skip', {'stmt': 'ROUNDTRIP'})
             return
-        src = vis[stmt[1] % len(vis)]
+        src = self.pick(fr, vis, stmt[1])
         kind = stmt[2]
         exact = src.exact
         partner = None
@@ -819,6 +845,22 @@ class Run:
                 op = jax.tree.unflatten(treedef, leaves)
             elif kind == 'reduce':
                 op = src.op.reduce()
+            elif kind == 'transpose':
+                # structural only (the library cannot *apply* the transpose of an iterative inverse): the
+                # transposed operator, and its transpose again, must still hold the inverses with the
+                # configuration they captured; an implementation that re-creates them here captures now
+                t1 = src.op.T
+                t2 = t1.T
+                for name, t in (('T', t1), ('T.T', t2)):
+                    caps_t = observe_captures(find_inverses(t), len(src.caps)) if src.structural else None
+                    self.log(fr, 'derive', {'h': None, 'src': src.h, 'src2': None, 'kind': 'transpose:' + name, 'shape': src.shape, 'ops': src.ops, 'exact': False, 'caps': caps_t})
+                    # (A @ B).T = B.T @ A.T: transposition may legitimately reverse the order in which the
+                    # inverses appear, so the captured configurations are compared as a multiset
+                    if caps_t is not None and _as_multiset(caps_t) != _as_multiset(src.caps):
+                        self.violate(fr, 'K', {'site': 'derive:transpose:' + name, 'caps': caps_t, 'expected': src.caps})
+                if self.top(fr) != src.caps[0]:
+                    self.probe('transposed_under_other_config')
+                return
             elif kind == 'pair-reduce':
                 # two handles composed and reduced: an algebraic rule that rebuilt the inverses would
                 # capture the configuration active *now*
@@ -873,7 +915,7 @@ class Run:
         if not vis:
             self.log(fr, 'skip', {'stmt': 'APPLY'})
             return
-        handle = vis[k % len(vis)]
+        handle = self.pick(fr, vis, k)
         actor = fr.actor
         y = palette.rhs_for(handle.op.in_structure())
         table = self.table_for(handle)
@@ -1454,19 +1496,24 @@ class Run:
         actor.task.cancel()
 
 
-def _partial_callback(run, tag, raising, solution):
-    run.on_callback(tag, solution, raising)
+_RUNS: dict = {}  # token -> Run, for callbacks (which must stay deep-copyable, see make_callback)
+
+
+def _fire(token, tag, raising, cell, solution):
+    run = _RUNS.get(token)
+    if run is not None:
+        run.on_callback(tag, solution, raising, cell)
 
 
 class _CallbackObject:
-    def __init__(self, run, tag, raising):
-        self.run, self.tag, self.raising = run, tag, raising
+    def __init__(self, token, tag, raising, cell):
+        self.token, self.tag, self.raising, self.cell = token, tag, raising, cell
 
     def __call__(self, solution):
-        self.run.on_callback(self.tag, solution, self.raising)
+        _fire(self.token, self.tag, self.raising, self.cell, solution)
 
     def method(self, solution):
-        self.run.on_callback(self.tag, solution, self.raising)
+        _fire(self.token, self.tag, self.raising, self.cell, solution)
 
 
 def _inside_compiled_execution() -> bool:
@@ -1505,6 +1552,10 @@ def _iter(body):
     from .program import iter_statements
 
     return iter_statements(body)
+
+
+def _as_multiset(caps: list) -> list:
+    return sorted(repr(sorted(c.items(), key=lambda kv: kv[0])) for c in caps)
 
 
 def observe_captures(invs: list, expected: int) -> list | None:
